@@ -26,7 +26,7 @@ CLAIM = dict(
           "blocks, methods, object methods and constructors): reported lines and quoted texts must be those of the faulting statement and "
           "of the calls leading to it — the expectation comes from the construction, not from the model."),
     note=semprop.TB + ("the lexer model (Lexer.v / StringLit.v) is hand-written and tied to the Go lexer by the per-run comparisons of C03/C05/C13 and, here, of the "
-                       "Go lexer's recorded line starts with phys_starts; 
+                       "Go lexer's recorded line starts with phys_starts; "
                        "one module only for the chain (module names of imported methods are C15's subject); East-Asian display widths are "
                        "checked for ASCII, CJK ideographs and full-width punctuation."),
     technique="Coq proof (line-start specification, FindLineIdx, frame/line bookkeeping invariants) + fault-planting correspondence",
